@@ -210,14 +210,43 @@ def _rows(ctx: Ctx, ro: FuncInfo) -> None:
         for m in bad_succ:
             if cfg.can_reach_avoiding(m, head, clears):
                 d_ok = False
-    ok = a_ok and b_ok and c_ok and d_ok
+    # (e) the tests look at the WHOLE row (state, control and time): the
+    # argument is the row variable (bound to result[k] / the loop target
+    # over the rows of result) or result[k] itself, never a part of it
+    row_names = {row_loop.target.id} if isinstance(
+        row_loop.target, ast.Name) else set()
+    for s_ in ast.walk(outer):
+        if isinstance(s_, (ast.Assign, ast.AnnAssign)) and \
+                s_.value is not None and isinstance(
+                s_.value, ast.Subscript) and ast.unparse(
+                s_.value.value) == "result" and not isinstance(
+                s_.value.slice, (ast.Slice, ast.Tuple)):
+            tg_ = s_.targets[0] if isinstance(s_, ast.Assign) else s_.target
+            if isinstance(tg_, ast.Name):
+                row_names.add(tg_.id)
+    partial = []
+    for t in tests:
+        for c in calls_in(t.ast):
+            if isinstance(c.func, ast.Name) and repo.resolve(
+                    ro.module, c.func.id) is okc:
+                a0 = c.args[0] if c.args else None
+                whole = (isinstance(a0, ast.Name) and a0.id in row_names) \
+                    or (isinstance(a0, ast.Subscript) and ast.unparse(
+                        a0.value) == "result" and not isinstance(
+                        a0.slice, (ast.Slice, ast.Tuple)))
+                if not whole:
+                    partial.append(ast.unparse(c))
+    e_ok = not partial
+    ok = a_ok and b_ok and c_ok and d_ok and e_ok
     ctx.ob("D10.2", ro, R.ast, ok,
            "the rows are returned only if the finished flag is still set; "
            "row 0 and every later row are checked by _is_ok, and a failing "
            "check clears the flag before leaving" if ok else
            f"a row can be returned unchecked: first-row-check={a_ok}, "
            f"flag-guard={b_ok}, every-row-checked={c_ok}, "
-           f"failure-clears-flag={d_ok}", construct="rows checked")
+           f"failure-clears-flag={d_ok}, whole-row-checked={e_ok}"
+           + (f" (only a part is tested: {partial})" if partial else ""),
+           construct="rows checked")
     # ---- D10.3 controller calls
     ctrl, params_nm, start_nm = ro.params[2], ro.params[3], ro.params[0]
     rowv = row_loop.target.id if isinstance(
